@@ -316,7 +316,7 @@ int main(void)
             pair_cnt = calloc(n1 * n2 + 1, 1);
             ap_n2 = n2; evn = 0; ev_overflow = 0; ap_active = 0; ap_delay = delay;
             memset(lastnull, 0, sizeof lastnull);
-            alarm(60);
+            alarm(getenv("C13_AP_WATCHDOG") ? atoi(getenv("C13_AP_WATCHDOG")) : 60);
             qt_allpairs(a1, a2, dist);
             aligned_t act = ap_active;
             alarm(0);
